@@ -90,7 +90,7 @@ func runC08(c *eng.Ctx, tier string) {
 				if call == nil {
 					continue
 				}
-				if eng.Callee(&call.Call) == getIdentity && len(call.Call.Args) == 2 && eng.OriginX(call.Call.Args[1]) == eng.OriginX(rP) {
+				if eng.Callee(&call.Call) == getIdentity && identityRequest(call) != nil && eng.OriginX(identityRequest(call)) == eng.OriginX(rP) {
 					gates["identity"] = true
 					idCall = call
 				}
@@ -622,10 +622,8 @@ func c08Identity(c *eng.Ctx, f *ssa.Function) {
 		}
 		nWho++
 		okk := false
-		if len(call.Call.Args) == 2 && len(f.Params) == 2 {
-			if fr, base, isF := eng.LoadedField(call.Call.Args[1]); isF && fr.Name == "RemoteAddr" && eng.OriginX(base) == eng.OriginX(f.Params[1]) {
-				okk = true
-			}
+		if len(call.Call.Args) == 2 && isRequestAddr(f, call.Call.Args[1]) {
+			okk = true
 		}
 		c.Check(okk, "R-C08-3", g, in.Pos(), eng.CallStr(&call.Call), "WhoIs is asked about r.RemoteAddr of the request being served (the peer of this connection)", "asked about "+eng.ValStr(call.Call.Args[len(call.Call.Args)-1]))
 	})
